@@ -343,14 +343,22 @@ func (p *Program) Func(relpkg, name string) *ssa.Function {
 			return fn
 		}
 	}
+	// a declared function before a synthetic wrapper (the pointer-receiver wrapper of a value-receiver method has
+	// no body of its own)
+	var wrapper *ssa.Function
 	for _, to := range p.aliases[want] {
 		for _, fn := range p.ModFuncs {
 			if FuncName(fn) == to {
-				return fn
+				if fn.Synthetic == "" {
+					return fn
+				}
+				if wrapper == nil {
+					wrapper = fn
+				}
 			}
 		}
 	}
-	return nil
+	return wrapper
 }
 
 // FuncsInPkg lists all functions (incl. anonymous) of a module package.
